@@ -2,7 +2,7 @@
 import kcp_common as K
 
 META = {
-    "enabled": False,
+    "enabled": True,
     "engine": "kcp",
     "technique": "Coq invariant proof of the RTO clamp for all ack/timestamp sequences; clean-path exactly-once checked by simulation of the real cores (partial)",
     "level_text": "Proved for every sequence of calls and inputs, including forged acknowledgement timestamps and arbitrary clock values: min RTO (30/100 ms) <= rx_rto <= 60 s, as long as the no-delay mode is not re-configured mid-connection; the clamp of one RTT sample is proved separately. The exactly-once half (clean FIFO path, 2D + peer interval < min RTO, reader keeps up) is PARTIAL: it is decided by a grid of deterministic clean-path simulations on the real cores under the fake clock (every sequence number must appear on the wire exactly once), replayed in the model; the whole-system timed induction is not mechanised.",
